@@ -290,10 +290,39 @@ class MassMatrixAdaptor(Adaptor):
             "samples": self.variance_estimator.samples,
         }
         state_dict.update(state_dict_estimator)
+        if self.variance_estimator2 is not None:
+            # second estimator used with swap_every
+            state_dict["estimator2"] = {
+                "mean": self.variance_estimator2._mean.tolist(),
+                "variance": self.variance_estimator2._variance.tolist(),
+                "samples": self.variance_estimator2.samples,
+            }
+        if self._variance_window != 0:
+            # samples that remove_sample will take out of the estimator
+            state_dict["values"] = [value.tolist() for value in self._values]
         return state_dict
 
     def load_state_dict(self, state_dict: dict[str, Any]) -> None:
         self._call_counter = state_dict["call_counter"]
+        if self.variance_estimator2 is not None and "estimator2" in state_dict:
+            estimator2 = self.variance_estimator2
+            estimator2.samples = state_dict["estimator2"]["samples"]
+            estimator2._mean = torch.tensor(
+                state_dict["estimator2"]["mean"],
+                dtype=estimator2._mean.dtype,
+                device=estimator2._mean.device,
+            )
+            estimator2._variance = torch.tensor(
+                state_dict["estimator2"]["variance"],
+                dtype=estimator2._variance.dtype,
+                device=estimator2._variance.device,
+            )
+        if "values" in state_dict:
+            x = self._parameters[0].tensor
+            self._values = deque(
+                torch.tensor(value, dtype=x.dtype, device=x.device)
+                for value in state_dict["values"]
+            )
         self.variance_estimator.samples = state_dict["samples"]
         info = {
             "dtype": self.variance_estimator._mean.dtype,
